@@ -27,11 +27,13 @@ fn judge(plan: &ClientPlan, run: &client::ClientRun, out: &mut RunOut) {
             OpResult::Hang => {
                 // where was the client waiting?
                 let pt = run.pt.lock().unwrap();
-                let stage = match pt.fired.iter().filter(|f| matches!(f.kind, FaultKind::Silence | FaultKind::StallMid(_) | FaultKind::Junk)).last() {
+                let stage = match pt.fired.iter().filter(|f| matches!(f.kind, FaultKind::Silence | FaultKind::StallMid(_) | FaultKind::Junk | FaultKind::StaleAfter(_))).last() {
                     Some(f) => {
                         let hs = matches!(f.during, (0x06, 0x00) | (0x0f, 0xa1)) && f.point <= 4;
                         if hs {
                             "silence_in_handshake".to_string()
+                        } else if matches!(f.kind, FaultKind::StaleAfter(_)) {
+                            format!("stale_bytes_during_{:02x}{:02x}", f.during.0, f.during.1)
                         } else {
                             format!("silence_during_{:02x}{:02x}", f.during.0, f.during.1)
                         }
@@ -39,6 +41,8 @@ fn judge(plan: &ClientPlan, run: &client::ClientRun, out: &mut RunOut) {
                     None => {
                         if run.connect_log.iter().any(|(_, c)| *c == ConnectSpec::Hang) {
                             "connect_never_completes".to_string()
+                        } else if plan.label == "beyond_range" {
+                            "configuration_value".to_string()
                         } else {
                             "no_fault".to_string()
                         }
@@ -183,6 +187,20 @@ impl Check for C10 {
                 p
             }));
         }
+        // unsolicited bytes behind every frame the terminal emits (a complete packet, one byte, a
+        // header with part of its body, an extended header with ten bytes), connection left open:
+        // whatever the client makes of them, the call must come back
+        {
+            let (cases, wl) = (cases.clone(), wl.clone());
+            fams.push(Family::new("stale_bytes_behind_every_frame", cases.len() as u64 * 4, true, move |i, _| {
+                let (wi, point) = cases[(i / 4) as usize];
+                let mut p = ClientPlan::plain(wl[wi].clone());
+                p.cfg.max_tx = 2;
+                p.faults = vec![FaultSpec { conn: 0, point, kind: FaultKind::StaleAfter((i % 4) as u8) }];
+                p.label = "stale".into();
+                p
+            }));
+        }
         // connects that never complete, from the start / after k good ones
         fams.push(Family::new("connect_never_completes", 5 * 6, true, {
             let wl = wl.clone();
@@ -254,7 +272,7 @@ impl Check for C10 {
         // configuration values beyond what their wire fields can carry (password > 6 digits, amount
         // > 12 digits, currency > 4 digits, terminal id > 8 digits / not a number): the call must still
         // come back with a result or an error - one value out of range at a time, and all together
-        fams.push(Family::new("configuration_beyond_wire_range", 5 * (4 + 3 + 3 + 6 + 1), true, {
+        fams.push(Family::new("configuration_beyond_wire_range", 5 * (4 + 3 + 3 + 12 + 1), true, {
             let wl = wl.clone();
             move |i, _| {
                 let mut p = ClientPlan::plain(wl[(i % 5) as usize].clone());
@@ -263,12 +281,12 @@ impl Check for C10 {
                 let pw = [999_999u32, 1_000_000, 99_999_999, u32::MAX];
                 let amt = [999_999_999_999u64, 1_000_000_000_000, u64::MAX];
                 let cur = [9_999u16, 10_000, u16::MAX];
-                let tid = ["99999999", "100000000", "18446744073709551615", "18446744073709551616", "abc", "-1"];
+                let tid = ["99999999", "100000000", "18446744073709551615", "18446744073709551616", "abc", "-1", "1234", "+52500042", "0", "00000001", "0x10", " 7"];
                 match k {
                     0..=3 => p.cfg.password = pw[k as usize],
                     4..=6 => p.cfg.pre_auth = amt[(k - 4) as usize],
                     7..=9 => p.cfg.currency = cur[(k - 7) as usize],
-                    10..=15 => p.cfg.terminal_id = tid[(k - 10) as usize].into(),
+                    10..=21 => p.cfg.terminal_id = tid[(k - 10) as usize].into(),
                     _ => {
                         p.cfg.password = u32::MAX;
                         p.cfg.pre_auth = u64::MAX;
@@ -334,7 +352,7 @@ impl Check for C10 {
     }
 
     fn rule_text(&self) -> String {
-        "one run = real Feig::new + public calls against a terminal that stalls; enumerated: silence at every emission point of connection 0 (handshake, configure, every exchange of 5 workloads) x later connections {healthy, stall at the same point, dead terminal (stall in the handshake of every later connection), connect never completes}; connect-hang patterns; read_card_timeout 0..255 x card delivered {at once, 1 ms before the window closes, mid-window} (W2: answered on the first connection) and x a terminal that never answers; configuration extremes and values beyond the width of their wire fields (password, amount, currency, terminal id); PRNG stalls with schedule noise; W1: every call returns Ok/Err before the one-virtual-day watchdog and does not panic (overflow checks on); distinct = hash of per-call results/frames/connections, fired faults and read_card_timeout".into()
+        "one run = real Feig::new + public calls against a terminal that stalls; enumerated: silence at every emission point of connection 0 (handshake, configure, every exchange of 5 workloads) x later connections {healthy, stall at the same point, dead terminal (stall in the handshake of every later connection), connect never completes}; unsolicited bytes behind every frame (complete packet, one byte, partial header/body), connection left open; connect-hang patterns; read_card_timeout 0..255 x card delivered {at once, 1 ms before the window closes, mid-window} (W2: answered on the first connection) and x a terminal that never answers; configuration extremes and values beyond the width of their wire fields (password, amount, currency, terminal id; also terminal ids that are numbers in another spelling than the eight digits the terminal reports); PRNG stalls with schedule noise; W1: every call returns Ok/Err before the one-virtual-day watchdog and does not panic (overflow checks on); distinct = hash of per-call results/frames/connections, fired faults and read_card_timeout".into()
     }
     fn assumptions(&self) -> Vec<String> {
         vec![
@@ -354,7 +372,7 @@ impl Check for C10 {
         vec!["TCP socket + connect (SimNet)", "payment terminal (stalling)", "clock (tokio paused)"]
     }
     fn expected_probes(&self) -> Vec<&'static str> {
-        vec!["fault.silence", "fault.connect_hang", "probe.no_collapse_checked", "probe.retry_budget_exhausted"]
+        vec!["fault.silence", "fault.stale_bytes_after_frame", "fault.connect_hang", "probe.no_collapse_checked", "probe.retry_budget_exhausted"]
     }
 }
 
@@ -364,6 +382,8 @@ fn random_stall_plan(rng: &mut Rng) -> ClientPlan {
     for f in p.faults.iter_mut() {
         if rng.pct(70) {
             f.kind = FaultKind::Silence;
+        } else if rng.pct(30) {
+            f.kind = FaultKind::StaleAfter(rng.below(4) as u8);
         }
     }
     if rng.pct(40) {
